@@ -55,7 +55,7 @@ M("c01-wfc-returns-raw-payload", "C01", "R2.recorded-outcome", "operation/wait_f
             )
             return CheckResult.create_completed(result)""",
   """            return CheckResult.create_completed(self.config.initial_state)""")
-M("c01-pagination-drops-marker", "C01", "R4.pagination-loop", "state.py",
+M("c01-pagination-drops-marker", "C01", "R4.pagination", "state.py",
   "            next_marker = output.next_marker\n", "            next_marker = None\n")
 M("c01-child-ignores-failed", "C01", "R", "operation/child.py",
   """        if checkpointed_result.is_failed():
@@ -1087,3 +1087,48 @@ def _track_helper(src):
 
 
 M2("benign-track-helper", "ALL", "", [{"file": "context.py", "fn": _track_helper}], expect="silent")
+
+M("benign-pagination-while-true", "ALL", "", "state.py",
+  """        while next_marker:
+            output: StateOutput = self._service_client.get_execution_state(
+                durable_execution_arn=self.durable_execution_arn,
+                checkpoint_token=checkpoint_token,
+                next_marker=next_marker,
+            )
+            all_operations.extend(output.operations)
+            next_marker = output.next_marker
+""", """        while True:
+            if not next_marker:
+                break
+            output: StateOutput = self._service_client.get_execution_state(
+                durable_execution_arn=self.durable_execution_arn,
+                checkpoint_token=checkpoint_token,
+                next_marker=next_marker,
+            )
+            all_operations.extend(output.operations)
+            next_marker = output.next_marker
+""", expect="silent")
+M("benign-replay-status-local", "ALL", "", "execution.py",
+  """        execution_state: ExecutionState = ExecutionState(
+            durable_execution_arn=invocation_input.durable_execution_arn,
+            initial_checkpoint_token=invocation_input.checkpoint_token,
+            operations={},
+            service_client=service_client,
+            # If there are operations other than the initial EXECUTION one, current state is in replay mode.
+            # The history may be paginated: a next marker means more operations follow on later pages.
+            replay_status=ReplayStatus.REPLAY
+            if len(invocation_input.initial_execution_state.operations) > 1
+            or invocation_input.initial_execution_state.next_marker
+            else ReplayStatus.NEW,
+        )""", """        has_history = (
+            len(invocation_input.initial_execution_state.operations) > 1
+            or bool(invocation_input.initial_execution_state.next_marker)
+        )
+        initial_status = ReplayStatus.REPLAY if has_history else ReplayStatus.NEW
+        execution_state: ExecutionState = ExecutionState(
+            durable_execution_arn=invocation_input.durable_execution_arn,
+            initial_checkpoint_token=invocation_input.checkpoint_token,
+            operations={},
+            service_client=service_client,
+            replay_status=initial_status,
+        )""", expect="silent")
